@@ -33,6 +33,19 @@ func genC11(t *rapid.T) snapCase {
 	c.Names = genNames(t, false)
 	c.Ops = genOps(t, 40, map[int]int{opJoin: 6, opLeave: 2, opFailed: 2, opUpdate: 1, opReap: 1, opUser: 2,
 		opQuery: 2, opWitness: 2, opTick: 1, opAdvance: 2})
+	if rapid.IntRange(0, 5).Draw(t, "bulk") == 0 {
+		// a burst: many member events with long names and no flush in between, so
+		// that the buffered writer spills 4096-byte chunks that end mid-line
+		c.MinCompact = rapid.SampledFrom([]int{2000, 6000, 128 * 1024}).Draw(t, "bulk-mincompact")
+		c.Names = nil
+		for i := 0; i < 5; i++ {
+			c.Names = append(c.Names, fmt.Sprintf("n%d-", i)+rapid.StringMatching(`[a-z]{90,120}`).Draw(t, "longname"))
+		}
+		c.Ops = genOps(t, 40, map[int]int{opJoin: 8, opLeave: 2, opFailed: 2, opUser: 1, opWitness: 1})
+		for len(c.Ops) < 34 {
+			c.Ops = append(c.Ops, hOp{K: opJoin, M: len(c.Ops) % 5, A: len(c.Ops) % 3})
+		}
+	}
 	c.Ops2 = genOps(t, 14, map[int]int{opJoin: 4, opLeave: 3, opFailed: 3, opUser: 2, opQuery: 2, opWitness: 2, opTick: 1, opAdvance: 1})
 	return c
 }
